@@ -125,10 +125,11 @@ def run(ctx):
             ctx.notes.setdefault("search_notes", []).append(f[1][:300])
     # ---- the add-sidx example binary on synthesized files
     fails += run_add_sidx(ctx, exe)
-    for f in fails:
-        ctx.failing_input(f[1], f[2], f[3], f[4])
-    ctx.log("search: %d failing inputs (%d signatures)" % (len(fails), len(set((f[1], f[2]) for f in fails))))
-    if mism and not fails:
+    # failing_input returns False for a signature listed as known: those must not hide a model/implementation mismatch
+    reported = [f for f in fails if ctx.failing_input(f[1], f[2], f[3], f[4])]
+    ctx.log("search: %d failing inputs (%d signatures), %d not listed as known" %
+            (len(fails), len(set((f[1], f[2]) for f in fails)), len(reported)))
+    if mism and not reported:
         by_id = {}
         for l in lines:
             p = l.split("\t")
